@@ -730,15 +730,27 @@ func c10FirstAttempt(c *Check) {
 		info := r.Info
 		try := calling("~/" + queueRel + ".Queue.tryDelivery")
 		msg := "undecided: no call of tryDelivery in dispatch"
+		// the attempt body: a function literal of dispatch, or a method started with `go`
+		var bodies []*ast.BlockStmt
 		ast.Inspect(r.FI.Decl.Body, func(n ast.Node) bool {
-			fl, ok := n.(*ast.FuncLit)
-			if !ok {
-				return true
+			switch x := n.(type) {
+			case *ast.FuncLit:
+				bodies = append(bodies, x.Body)
+			case *ast.GoStmt:
+				if _, isLit := x.Call.Fun.(*ast.FuncLit); !isLit {
+					if d := c.P.DeclOf(callee(info, x.Call)); d != nil && d.Decl.Body != nil && d.Pkg == r.FI.Pkg {
+						bodies = append(bodies, d.Decl.Body)
+						c.SawFunc(d.Name())
+					}
+				}
 			}
-			lr := &RuleCtx{C: c, FI: r.FI, F: c.P.FlowOf(info, fl.Body, r.FI.Name()+"$attempt"), Info: info}
+			return true
+		})
+		for _, ab := range bodies {
+			lr := &RuleCtx{C: c, FI: r.FI, F: c.P.FlowOf(info, ab, r.FI.Name()+"$attempt"), Info: info}
 			sites := lr.Calls(try)
 			if len(sites) == 0 {
-				return true
+				continue
 			}
 			msg = ""
 			for _, pt := range sites {
@@ -792,8 +804,8 @@ func c10FirstAttempt(c *Check) {
 					}
 				}
 			}
-			return false
-		})
+			break
+		}
 		c.Hold("R3f", "Queue.dispatch:hands-over-the-slot", r.FI.Decl.Pos(), msg == "", msg)
 	}
 	// (d) tryDelivery -> deliver
